@@ -335,7 +335,9 @@ def _kinds(cx, simple, is_simple, gen, obj):
                 return r
             if isinstance(e.func, ast.Attribute) and isinstance(e.func.value, ast.Name) and e.func.value.id == params(simple)[1]:
                 calls.append((e.func.attr, e.args[0] if e.args else None))
-                return K("other", False, "chunk:" + e.func.attr + ":" + norm(e.args[0] if e.args else e))
+                # the text of the argument is only meaningful while the parameter still holds the value that came in
+                same = env.get(sv) == val
+                return K("other", False, "chunk:" + e.func.attr + ":" + norm(e.args[0] if e.args else e) + ("" if same else f" [with {sv} re-bound to another value before]"))
             return None
         it2.call_hook = hook2
         outs = it2.run(simple.body, {sv: val})
@@ -345,6 +347,8 @@ def _kinds(cx, simple, is_simple, gen, obj):
                "int": ("number", f"str({sv})"), "float": ("number", f"str({sv})"), "empty dict": ("text", "'{}'"), "empty list": ("text", "'[]'")}[label]
         got = {o.value.tag for o in oks if isinstance(o.value, K) and o.value.tag}
         ok = not bad and got == {f"chunk:{exp[0]}:{exp[1]}"}
+        if not ok and label in ("int", "float") and not bad and got == {f"chunk:number:repr({sv})"}:
+            ok = True       # repr and str coincide on ints and floats
         cx.ob("R11e", simple, ok, f"{label}: rendered as {exp[0]}({exp[1]})" if ok else
               f"{label}: rendered as {sorted(got)}{' / ' + str([(o.how, o.value) for o in bad]) if bad else ''}, expected {exp[0]}({exp[1]})", stmt=f"render {label}")
     # routing in the generator: first test is the simple test
